@@ -43,6 +43,8 @@ pub enum Term {
     Fees,
     MinUtxo(String),
     Input(String),
+    /// a `locals { name: <amount>, }` entry used by name
+    Local(String, Box<Amount>),
 }
 
 #[derive(Clone, Debug, Default, PartialEq)]
@@ -150,6 +152,8 @@ pub struct TxSpec {
     pub metadata: Vec<(u64, MetaVal)>,
     pub directives: Vec<Directive>,
     pub balanced: bool,
+    /// `locals { .. }` entries
+    pub locals: Vec<(String, Amount)>,
 }
 
 #[derive(Clone, Debug, Default)]
@@ -200,6 +204,7 @@ impl Program {
             Term::Fees => "fees".into(),
             Term::MinUtxo(o) => format!("min_utxo({})", o),
             Term::Input(n) => n.clone(),
+            Term::Local(n, _) => n.clone(),
         }
     }
 
@@ -299,6 +304,13 @@ impl Program {
             s.push_str(&format!("    {}: {},\n", n, pty(t)));
         }
         s.push_str(") {\n");
+        if !tx.locals.is_empty() {
+            s.push_str("    locals {\n");
+            for (n, a) in &tx.locals {
+                s.push_str(&format!("        {}: {},\n", n, self.pamount(a)));
+            }
+            s.push_str("    }\n");
+        }
         if let Some(r) = &tx.reference {
             s.push_str(&format!("    reference refblock {{\n        ref: {},\n    }}\n", r));
         }
@@ -540,6 +552,13 @@ pub fn gen_program(t: &mut Tape, cfg: &GenCfg) -> Program {
             p.policies.push((format!("Pol{}", i), std::iter::repeat(0x61 + i as u8 * 7).take(28).collect()));
         }
     }
+    if cfg.profile != Profile::Selection && t.chance(1, 5) {
+        // values that arrive through the environment rather than as transaction arguments
+        p.env.push(("ev0".to_string(), Ty::Int));
+        if t.chance(1, 3) {
+            p.env.push(("ev1".to_string(), Ty::Int));
+        }
+    }
     let ntx = 1 + t.index(cfg.max_txs.max(1));
     for k in 0..ntx {
         let tx = gen_tx(t, cfg, &mut p, k);
@@ -616,6 +635,11 @@ fn gen_tx(t: &mut Tape, cfg: &GenCfg, p: &mut Program, k: usize) -> TxSpec {
         Profile::Fee => 1 + t.weighted(&[6, 2, 1]),
         _ => 1 + t.weighted(&[5, 3, 1]),
     };
+    // a transaction either reads input datums or uses the ten-case variant type in redeemers, not
+    // both: lowering a property access formats the analysed operand - and through it the whole
+    // transaction with every variant case - eagerly for an error message (`ok_or(format!(..))`),
+    // which costs 10-40 s per program; a front-end cost outside the claimed properties
+    let datum_tx = cfg.profile == Profile::Rich && t.chance(1, if cfg.datum_bias { 1 } else { 3 });
     // overlapping queries: usually the same party for every block
     let common_from = t.index(np);
     for i in 0..nin {
@@ -630,7 +654,7 @@ fn gen_tx(t: &mut Tape, cfg: &GenCfg, p: &mut Program, k: usize) -> TxSpec {
             None
         };
         let min = gen_min(t, cfg, p, &mut params, &named);
-        let datum_is = cfg.profile == Profile::Rich && t.chance(1, if cfg.datum_bias { 2 } else { 5 });
+        let datum_is = datum_tx && t.chance(1, 2);
         let datum_int = datum_is && t.chance(1, 3);
         if datum_is && !datum_int {
             p.has_rec = true;
@@ -639,7 +663,7 @@ fn gen_tx(t: &mut Tape, cfg: &GenCfg, p: &mut Program, k: usize) -> TxSpec {
         // not on inputs whose datum is read: lowering a property access formats the whole analysed
         // input block (its redeemer's variant type, case by case) for an error message it rarely
         // needs, which takes tens of seconds for a ten-case type - a front-end cost, not a subject here
-        let rcase = redeemer_case(t, p, has_redeemer && !datum_is);
+        let rcase = redeemer_case(t, p, has_redeemer && !datum_tx);
         tx.inputs.push(InputSpec {
             // blocks are resolved in name order, and the collateral query is always called
             // "collateral": names sort before and after it
@@ -689,7 +713,7 @@ fn gen_tx(t: &mut Tape, cfg: &GenCfg, p: &mut Program, k: usize) -> TxSpec {
             let tok = t.index(p.tokens.len());
             let q = small_mint_q(t, &mut params);
             let has_redeemer = t.chance(1, 3);
-            let rcase = redeemer_case(t, p, has_redeemer && cfg.profile == Profile::Rich);
+            let rcase = redeemer_case(t, p, has_redeemer && cfg.profile == Profile::Rich && !datum_tx);
             tx.mints.push(MintSpec {
                 tok,
                 q,
@@ -809,6 +833,19 @@ fn gen_tx(t: &mut Tape, cfg: &GenCfg, p: &mut Program, k: usize) -> TxSpec {
             // usually the output's own size, sometimes another output's (legal: min_utxo(<any output>))
             let j = if cfg.optional_bias && t.chance(1, 2) { t.index(nout) } else { i };
             terms.push((false, Term::MinUtxo(out_names[j].clone())));
+        } else if cfg.profile != Profile::Selection && t.chance(1, 8) {
+            // the amount is written once under `locals` and used by name
+            let mut la = vec![(false, Term::Ada(small_q(t, &mut params, "a")))];
+            if !p.tokens.is_empty() && t.chance(1, 2) {
+                let tok = t.index(p.tokens.len());
+                la.push((false, Term::Tok(tok, small_q_tok(t, &mut params))));
+            }
+            let name = format!("lv{}", tx.locals.len());
+            tx.locals.push((name.clone(), Amount(la.clone())));
+            terms.push((false, Term::Local(name, Box::new(Amount(la)))));
+        } else if !p.env.is_empty() && t.chance(1, 2) {
+            let e = p.env[t.index(p.env.len())].0.clone();
+            terms.push((false, Term::Ada(Q::Param(e))));
         } else {
             terms.push((false, Term::Ada(small_q(t, &mut params, "a"))));
         }
